@@ -6,10 +6,17 @@ package convert_utf8_bytes
 //
 // C13: the escape-sequence rewriter walks the string value of an event field;
 // it is checked panic-free (index, slice bounds) for every string content.
+// The rewritten value is handed to the node as a copy (MutateToBytesCopy); a
+// string view of the plugin's scratch buffer p.buf (uf_viewref != 0, see
+// ByteToStringUnsafe in /verif/contracts-lib) must never be stored in a node:
+// p.buf is reused for the next field and the next event.
 
 //@ func (*Plugin).convert
 //@   loop 2 invariant 2 <= pos && pos <= len(nodeStr)
 //@   callee AsString(n) (r)
 //@     pure
-//@   callee MutateToString(n, s) (r)
-//@     havoc *n
+//@   callee MutateToBytesCopy(root, v) (r)
+//@     preserves Plugin
+//@   callee MutateToString(s) (r)
+//@     requires uf_viewref(s) == 0
+//@     preserves Plugin
